@@ -249,9 +249,14 @@ class Check:
     def coqchk(self, timeout=1500):
         """thorough tier: re-check props/Cxx.vo and everything it depends on with the independent checker and
         record the axioms it reports"""
-        rc, out = sh(["coqchk", "-o", "-silent", "-Q", "theories", "DS", "-Q", "generated", "DSG", "-Q", "props", "DSP",
-                      "DSP.%s" % self.prop], cwd=os.path.join(ROOT, "coq"), timeout=timeout)
-        self.obligations.append("coqchk: independent re-check of props/%s.vo and its dependencies" % self.prop)
+        # every props module a theorem of this check lives in (C07 collects theorems from several; Src* ties)
+        mods = sorted({".".join(o.split(".")[:2]) for o in self.obligations if o.startswith("DSP.") and o.count(".") >= 2})
+        mods = [m for m in mods if os.path.exists(os.path.join(ROOT, "coq", "props", m.split(".")[1] + ".vo"))]
+        if not mods:
+            mods = ["DSP.%s" % self.prop]
+        rc, out = sh(["coqchk", "-o", "-silent", "-Q", "theories", "DS", "-Q", "generated", "DSG", "-Q", "props", "DSP"] + mods,
+                     cwd=os.path.join(ROOT, "coq"), timeout=timeout)
+        self.obligations.append("coqchk: independent re-check of %s and their dependencies" % ", ".join(mods))
         m = re.search(r"\* Axioms:(.*?)\n\s*\n\* Constants", out, re.S)
         axioms = [a.strip() for a in (m.group(1).split("\n") if m else []) if a.strip() and a.strip() != "<none>"]
         self.coverage["coqchk"] = {"rc": rc, "axioms": axioms or "<none>"}
